@@ -507,3 +507,6 @@ def decide_inconclusive(obs, results, cases):
     if obs.get('failure_reached_consumer', 0) == 0 or obs.get('early_stop_cases', 0) == 0:
         return 'no case delivered a failure to the consumer / stopped early'
     return None
+
+
+RULE = RULE + '; failure site actx (async context manager of parmap(async func) fails to enter); Buffer constructed directly with an external stop event; stop x source-failure cross product'
